@@ -172,9 +172,13 @@ def run_case(cs, ctx):
                     else:
                         s.solve(timeLimit=limit)
                 except Exception as e:
-                    ctx.cnt('unobservable_solve_raised')
                     log.append(('solve', 'raised ' + type(e).__name__))
                     pending = None
+                    if nsolve >= 1:
+                        ctx.finding(en.F('C18', 'resolve_raises', 'solve #%d on the same object raised %s: %s (the first solve returned normally)' % (
+                            nsolve + 1, type(e).__name__, str(e)[:200]), exc=en.exc_info(e)), case)
+                    else:
+                        ctx.cnt('unobservable_solve_raised')
                     return
                 finally:
                     TAP.enabled = False
